@@ -348,6 +348,7 @@ func consoleConfigs(tier string) []consoleCfg {
 	add("PartsExclude=[tim lev] (prefixes only)", func(c *consoleCfg) { c.partsExclude = []string{"tim", "lev", "messages"} })
 	add("TimeFormat=RFC3339", func(c *consoleCfg) { c.timeFormat = time.RFC3339 })
 	add("TimeFormat=15:04:05.000", func(c *consoleCfg) { c.timeFormat = "15:04:05.000" })
+	add("TimeFormat=RFC3339Nano", func(c *consoleCfg) { c.timeFormat = time.RFC3339Nano }) // (every digit of a nanosecond timestamp)
 	add("TimeLocation=+02:30", func(c *consoleCfg) { c.loc = time.FixedZone("Z", 2*3600+1800) })
 	for _, t := range tffs[1:] {
 		t := t
